@@ -83,7 +83,8 @@ class TestSolver : public mp::BasicSolver {
     AddDblOption("tol:gap gap mipgap", "Gap.", &TestSolver::GetGap, &TestSolver::SetGap);
     AddStrOption("tech:log logfile log_file", "Log file.", &TestSolver::GetLog, &TestSolver::SetLog);
     AddOption(OptionPtr(new FlagOption(quiet)));
-    AddDblOption("lim:*:wt lim_*_wt", "Weight of limit *.", &TestSolver::GetWt, &TestSolver::SetWt);
+    // synonyms whose text around the * differs in length from the standard name
+    AddDblOption("lim:*:wt limit_*_w wt*", "Weight of limit *.", &TestSolver::GetWt, &TestSolver::SetWt);
     set_output_handler(&rec);
   }
 };
